@@ -91,6 +91,17 @@ def psMatRag (B : ℕ → ℚ → ℚ) (c : RagCurve) (k l : ℕ) : ℚ :=
 def psRhsRag (B : ℕ → ℚ → ℚ) (c : RagCurve) (k : ℕ) : ℚ :=
   (c.map fun (x, y) => B k x * 1 * y).sum
 
+/-! ### inputs of `mean(method_smoothing="PS")` -/
+
+/-- `_format_data(x, y)`: the long table laid on the sorted distinct points by
+`new_y[indices] = obs`, which OVERWRITES: at every point the value listed LAST survives
+(`0` where nothing is listed). -/
+def formatData (d : List ℚ) (long : List (ℚ × ℕ × ℚ)) : List ℚ :=
+  d.map fun x => ((long.filter fun row => row.1 = x).getLast?.map fun row => row.2.2).getD 0
+
+/-- `weights[new_y == 0] = 0`. -/
+def formatWeights (ys : List ℚ) : List ℚ := ys.map fun y => if y = 0 then 0 else 1
+
 /-! ### interpolation (`smooth(method="interpolation")`, used by `norm` and `inner_product`) -/
 
 /-- `np.interp(x, xp, fp)` for increasing `xp`: linear between samples, constant
